@@ -221,7 +221,11 @@ VARIANTS = {
              '--target-dir', 'target/std'], 'target/std/release/avdrive'),
     'nightly': (['cargo', '+nightly', 'build', '--release', '--features', 'nightly',
                  '--target-dir', 'target/nightly'], 'target/nightly/release/avdrive'),
+    # ThreadSanitizer build (std rebuilt with the sanitizer, otherwise "ABI mismatch"); used by the thorough tier of C19
+    'tsan': (['cargo', '+nightly', 'build', '-Zbuild-std', '--target', 'x86_64-unknown-linux-gnu', '--release',
+              '--target-dir', 'target/tsan'], 'target/tsan/x86_64-unknown-linux-gnu/release/avdrive'),
 }
+VARIANT_ENV = {'tsan': {'RUSTFLAGS': '-Zsanitizer=thread'}}
 
 _built = {}
 
@@ -239,7 +243,9 @@ def build(variant):
         return _built[variant]
     args, rel = VARIANTS[variant]
     t0 = time.time()
-    r = subprocess.run(args, cwd=HARNESS, env=cargo_env(), capture_output=True, text=True)
+    env = cargo_env()
+    env.update(VARIANT_ENV.get(variant, {}))
+    r = subprocess.run(args, cwd=HARNESS, env=env, capture_output=True, text=True)
     if r.returncode != 0:
         sys.stderr.write(r.stderr[-6000:])
         raise Inconclusive('driver build failed for variant %s (cargo exit %d)' % (variant, r.returncode))
@@ -257,13 +263,24 @@ def rustc_version(toolchain=None):
         return 'unknown'
 
 
-def run_driver(binary, text, timeout=1800):
+class SanitizerReport(Exception):
+    pass
+
+
+def run_driver(binary, text, timeout=1800, sanitizer=False):
     """Run the driver on case text.  A crash or watchdog timeout is Inconclusive, never a
-    violation."""
+    violation.  With sanitizer=True (ThreadSanitizer build) exit code 66 / a report on stderr raises
+    SanitizerReport with the report text."""
+    env = None
+    if sanitizer:
+        env = dict(os.environ, TSAN_OPTIONS='halt_on_error=0 exitcode=66 second_deadlock_stack=1')
     try:
-        r = subprocess.run([binary], input=text, capture_output=True, text=True, timeout=timeout)
+        r = subprocess.run([binary], input=text, capture_output=True, text=True, timeout=timeout, env=env)
     except subprocess.TimeoutExpired:
         raise Inconclusive('driver watchdog fired after %ds' % timeout)
+    if sanitizer and (r.returncode == 66 or 'WARNING: ThreadSanitizer' in r.stderr):
+        i = r.stderr.find('WARNING: ThreadSanitizer')
+        raise SanitizerReport(r.stderr[max(0, i):i + 4000])
     if r.returncode != 0:
         raise Inconclusive('driver exited with %d: %s' % (r.returncode, r.stderr[-2000:]))
     return parse_log(r.stdout)
